@@ -305,6 +305,89 @@ macro_rules! simple {
 	}};
 }
 
+/// One heterogeneous comparison impl `L: PartialEq<R> + PartialOrd<R>`: its results must be
+/// those of the homogeneous comparison of the same two values (class key for ==, `base` for
+/// the order), whatever the holders (owned, borrowed, reference to borrowed) are.
+fn cross<L: ?Sized + PartialEq<R> + PartialOrd<R>, R: ?Sized>(
+	f: &mut Fails,
+	tag: &str,
+	salt: usize,
+	ls: &[&L],
+	rs: &[&R],
+	texts: &[String],
+	canon: &[&Value],
+	base: &[i8],
+) {
+	let n = ls.len();
+	let mut c = Capped { f, seen: Default::default(), cap: 3 };
+	for i in 0..n {
+		for j in 0..n {
+			// a deterministic eighth of the pairs per impl (a wrong impl is wrong on most pairs)
+			if (i * 31 + j * 17 + salt) % 8 != 0 && i != j {
+				continue;
+			}
+			c.check();
+			let same = canon[i] == canon[j];
+			match guard(|| (*ls[i] == *rs[j], ls[i].partial_cmp(rs[j]))) {
+				Err(m) => c.fail(C0708, &format!("{tag}.panic"), json!({"a": texts[i], "b": texts[j], "panic": m})),
+				Ok((e, o)) => {
+					if e != same {
+						c.fail(C0708, &format!("{tag}.eq"), json!({"a": texts[i], "b": texts[j], "observed": e, "expected": same}));
+					}
+					if base[i * n + j] != 2 && o.map(sign) != Some(base[i * n + j]) {
+						c.fail(C08, &format!("{tag}.partial_cmp"), json!({"a": texts[i], "b": texts[j], "observed": o.map(sign), "same_values_homogeneous_cmp": base[i * n + j]}));
+					}
+				}
+			}
+		}
+	}
+	c.finish();
+}
+
+macro_rules! cross_family {
+	($f:ident, $texts:ident, $canon:ident, $Ri:ty, $RiBuf:ty, $RiRef:ty, $RiRefBuf:ty, $own:expr, $fam:expr) => {{
+		let full: Vec<&$Ri> = $texts.iter().map(|s| <$Ri>::new(s.as_str()).unwrap()).collect();
+		let rf: Vec<&$RiRef> = $texts.iter().map(|s| <$RiRef>::new(s.as_str()).unwrap()).collect();
+		let fullb: Vec<$RiBuf> = full.iter().map(|v| (*v).to_owned()).collect();
+		let rfb: Vec<$RiRefBuf> = rf.iter().map(|v| (*v).to_owned()).collect();
+		let fullbr: Vec<&$RiBuf> = fullb.iter().collect();
+		let rfbr: Vec<&$RiRefBuf> = rfb.iter().collect();
+		let fullrr: Vec<&&$Ri> = full.iter().collect();
+		let rfrr: Vec<&&$RiRef> = rf.iter().collect();
+		let n = full.len();
+		// homogeneous order of the reference views (2 = the comparison panicked)
+		let mut base = vec![2i8; n * n];
+		for i in 0..n {
+			for j in 0..n {
+				if let Ok(o) = guard(|| rf[i].cmp(rf[j])) {
+					base[i * n + j] = sign(o);
+				}
+			}
+		}
+		let t = |a: &str, b: &str| format!("{}.{}_vs_{}", $fam, a, b);
+		cross::<$Ri, &$Ri>($f, &t("full", "ref_to_full"), 1, &full, &fullrr, &$texts, &$canon, &base);
+		cross::<$Ri, $RiBuf>($f, &t("full", "fullbuf"), 2, &full, &fullbr, &$texts, &$canon, &base);
+		cross::<$Ri, $RiRef>($f, &t("full", "ref"), 3, &full, &rf, &$texts, &$canon, &base);
+		cross::<$Ri, &$RiRef>($f, &t("full", "ref_to_ref"), 4, &full, &rfrr, &$texts, &$canon, &base);
+		cross::<$Ri, $RiRefBuf>($f, &t("full", "refbuf"), 5, &full, &rfbr, &$texts, &$canon, &base);
+		cross::<$RiRef, &$RiRef>($f, &t("ref", "ref_to_ref"), 6, &rf, &rfrr, &$texts, &$canon, &base);
+		cross::<$RiRef, $RiRefBuf>($f, &t("ref", "refbuf"), 7, &rf, &rfbr, &$texts, &$canon, &base);
+		cross::<$RiRef, $Ri>($f, &t("ref", "full"), 8, &rf, &full, &$texts, &$canon, &base);
+		cross::<$RiRef, &$Ri>($f, &t("ref", "ref_to_full"), 9, &rf, &fullrr, &$texts, &$canon, &base);
+		cross::<$RiRef, $RiBuf>($f, &t("ref", "fullbuf"), 10, &rf, &fullbr, &$texts, &$canon, &base);
+		cross::<$RiBuf, $Ri>($f, &t("fullbuf", "full"), 11, &fullbr, &full, &$texts, &$canon, &base);
+		cross::<$RiBuf, &$Ri>($f, &t("fullbuf", "ref_to_full"), 12, &fullbr, &fullrr, &$texts, &$canon, &base);
+		cross::<$RiBuf, $RiRef>($f, &t("fullbuf", "ref"), 13, &fullbr, &rf, &$texts, &$canon, &base);
+		cross::<$RiBuf, &$RiRef>($f, &t("fullbuf", "ref_to_ref"), 14, &fullbr, &rfrr, &$texts, &$canon, &base);
+		cross::<$RiBuf, $RiRefBuf>($f, &t("fullbuf", "refbuf"), 15, &fullbr, &rfbr, &$texts, &$canon, &base);
+		cross::<$RiRefBuf, $RiRef>($f, &t("refbuf", "ref"), 16, &rfbr, &rf, &$texts, &$canon, &base);
+		cross::<$RiRefBuf, &$RiRef>($f, &t("refbuf", "ref_to_ref"), 17, &rfbr, &rfrr, &$texts, &$canon, &base);
+		cross::<$RiRefBuf, $Ri>($f, &t("refbuf", "full"), 18, &rfbr, &full, &$texts, &$canon, &base);
+		cross::<$RiRefBuf, &$Ri>($f, &t("refbuf", "ref_to_full"), 19, &rfbr, &fullrr, &$texts, &$canon, &base);
+		cross::<$RiRefBuf, $RiBuf>($f, &t("refbuf", "fullbuf"), 20, &rfbr, &fullbr, &$texts, &$canon, &base);
+	}};
+}
+
 pub fn run(case: &Value, f: &mut Fails) {
 	let ty = case["ty"].as_str().unwrap();
 	let vals = case["vals"].as_array().unwrap();
@@ -353,6 +436,7 @@ pub fn run(case: &Value, f: &mut Fails) {
 			views_agree::<uri::UriBuf, iri::Iri>(f, "Uri.as_Iri", keys.clone(), &texts);
 			views_agree::<uri::UriBuf, iri::IriRef>(f, "Uri.as_IriRef", keys, &texts);
 			cross_uri(f, &texts, &canon);
+			cross_family!(f, texts, canon, uri::Uri, uri::UriBuf, uri::UriRef, uri::UriRefBuf, 0, "uri");
 		}
 		"Iri" => {
 			simple!(f, ty, texts, canon, iri::Iri, iri::IriBuf);
@@ -361,6 +445,7 @@ pub fn run(case: &Value, f: &mut Fails) {
 			views_agree::<iri::IriBuf, iri::Iri>(f, "Iri.as_Iri", keys.clone(), &texts);
 			views_agree::<iri::IriBuf, iri::IriRef>(f, "Iri.as_IriRef", keys, &texts);
 			cross_iri(f, &texts, &canon);
+			cross_family!(f, texts, canon, iri::Iri, iri::IriBuf, iri::IriRef, iri::IriRefBuf, 0, "iri");
 		}
 		other => panic!("harness: eqgroup of unknown type {other}"),
 	}
